@@ -25,6 +25,7 @@ import (
 	"verifharness/bridge"
 	"verifharness/mon"
 	rb "verifharness/ref/bits"
+	rboc "verifharness/ref/boc"
 	"verifharness/ref/cell"
 	"verifharness/reg"
 )
@@ -1327,6 +1328,200 @@ func sectionWalletV5() {
 	}
 }
 
+// ---------------------------------------------------------------- destination cells
+
+// tlb.Marshal(c, v) appends the encoding of v to the cell the caller hands in.
+// Whatever that cell is - fresh, parsed from a BOC (by tongo's own writer, by the
+// reference writer, through the JSON form), empty or already holding a prefix of
+// bits (byte-aligned or not) and a reference - what follows the prefix must be
+// exactly the bits and references the schema prescribes for v.
+func sectionDestinations() {
+	var bitsTypes []reg.Entry
+	for _, e := range reg.Types() {
+		if reBits.MatchString(e.Name) {
+			bitsTypes = append(bitsTypes, e)
+		}
+	}
+	type tail struct {
+		NewOwner  tlb.Bits256
+		PublicKey tlb.Bits256
+		Seqno     uint32
+	}
+	type bytesKinds struct {
+		A uint8
+		J [5]byte
+		K []byte
+		L [33]byte
+	}
+	const nKinds = 12
+	origins := []string{"fresh", "parsed-by-tongo", "parsed-from-reference-writer", "parsed-from-json"}
+	n := R.N(3000, 300000)
+	for k := 0; k < n; k++ {
+		rng := R.Rng("dest", k)
+		// ---- the value and its reference encoding
+		var v any
+		var bits []bool
+		var refs []*cell.Cell
+		var kind string
+		switch k % nKinds {
+		case 0:
+			var t tail
+			copy(t.NewOwner[:], rng.Bytes(32))
+			copy(t.PublicKey[:], rng.Bytes(32))
+			t.Seqno = uint32(rng.Uint64())
+			v, kind = t, "struct-of-hashes"
+			bits = cat(rb.BytesBits(t.NewOwner[:]), rb.BytesBits(t.PublicKey[:]), rb.UintBits(uint64(t.Seqno), 32))
+		case 1:
+			e := mon.Pick(rng, bitsTypes)
+			m := reBits.FindStringSubmatch(e.Name)
+			w, _ := strconv.Atoi(m[1])
+			g := reg.NewGen(rng)
+			x := g.New(e.Type)
+			raw := make([]byte, x.Len())
+			reflect.Copy(reflect.ValueOf(raw), x)
+			v, kind, bits = x.Interface(), "BitsN", rb.BytesBits(raw)[:w]
+		case 2:
+			b := bytesKinds{A: uint8(rng.Uint64()), K: rng.Bytes(rng.Intn(20))}
+			copy(b.J[:], rng.Bytes(5))
+			copy(b.L[:], rng.Bytes(33))
+			v, kind = b, "byte-arrays-and-slice"
+			bits = cat(rb.UintBits(uint64(b.A), 8), rb.BytesBits(b.J[:]), rb.BytesBits(b.K), rb.BytesBits(b.L[:]))
+		case 3:
+			a := genAddr(rng, 1, 2, 2, 3)
+			v, kind, bits = a.tongo(), "MsgAddress", a.ref()
+		case 4:
+			i := genInfo(rng)
+			v, kind, bits = i.tongo(), "CommonMsgInfo", i.ref()
+		case 5:
+			si := genStateInit(rng)
+			v, kind = si.tongo(), "StateInit"
+			bits, refs = si.ref()
+		case 6:
+			// update_hashes#72 {X:Type} old_hash:bits256 new_hash:bits256 = HASH_UPDATE X;
+			var h tlb.HashUpdate
+			copy(h.OldHash[:], rng.Bytes(32))
+			copy(h.NewHash[:], rng.Bytes(32))
+			v, kind = h, "HashUpdate"
+			bits = cat(rb.UintBits(0x72, 8), rb.BytesBits(h.OldHash[:]), rb.BytesBits(h.NewHash[:]))
+		case 7:
+			txt := rng.Bytes(rng.Intn(60))
+			v, kind = tlb.FixedLengthText(txt), "FixedLengthText"
+			bits = cat(rb.UintBits(uint64(len(txt)), 8), rb.BytesBits(txt))
+		case 8:
+			acc := genAccount(rng, genStateInit(rng))
+			v, kind = acc.tongo(), "Account"
+			bits, refs = acc.ref()
+		case 9:
+			g := genGrams(rng)
+			x := rng.BigBits(256)
+			type nums struct {
+				G tlb.Grams
+				U tlb.Uint256
+				H tlb.Bits256
+			}
+			nv := nums{G: tlb.Grams(g), U: tlb.Uint256(*x)}
+			copy(nv.H[:], rng.Bytes(32))
+			v, kind = nv, "numbers-then-hash"
+			bits = cat(refGrams(g), rb.BigBits(x, 256), rb.BytesBits(nv.H[:]))
+		case 10:
+			pub, root := rng.Bool(), genRefCell(rng, 1)
+			v, kind = tlb.SimpleLib{Public: pub, Root: tongoCell(root)}, "SimpleLib"
+			bits, refs = []bool{pub}, []*cell.Cell{root}
+		default:
+			var sig tlb.Bits512
+			copy(sig[:], rng.Bytes(64))
+			body := cell.New(rng.Bits(rng.Intn(200)), false)
+			v, kind = wallet.SignedMsgBody{Sign: sig, Message: tlb.Any(tongoCell(body))}, "SignedMsgBody"
+			bits = cat(rb.BytesBits(sig[:]), body.Bits)
+		}
+		// ---- the destination
+		origin := origins[(k/nKinds)%len(origins)]
+		plen := 0
+		switch (k / nKinds / len(origins)) % 3 {
+		case 1:
+			plen = mon.Pick(rng, []int{8, 16, 32, 64, 96, 264, 8 * rng.Range(1, 40)})
+		case 2:
+			plen = mon.Pick(rng, []int{1, 2, 4, 7, 9, 33, 267, rng.Range(1, 300)})
+			if plen%8 == 0 {
+				plen++
+			}
+		}
+		if room := 1023 - len(bits); plen > room {
+			// the longest prefix of the same alignment class that leaves room for the value
+			if plen%8 == 0 {
+				plen = room / 8 * 8
+			} else if plen = room; plen%8 == 0 {
+				plen--
+			}
+		}
+		if plen < 0 || plen+len(bits) > 1023 {
+			R.Eval("")
+			continue
+		}
+		prefix := cell.New(rng.Bits(plen), false)
+		if plen > 0 && len(refs) < 4 && rng.Chance(1, 3) {
+			prefix.Refs = append(prefix.Refs, genCell(rng, 2))
+		}
+		var dest *boc.Cell
+		var derr error
+		switch origin {
+		case "fresh":
+			if plen == 0 {
+				dest = boc.NewCell()
+			} else {
+				t := tongoCell(prefix)
+				dest = &t
+			}
+		case "parsed-by-tongo":
+			t := tongoCell(prefix)
+			var raw []byte
+			if raw, derr = t.ToBocCustom(rng.Bool(), rng.Bool(), false, 0); derr == nil {
+				var cs []*boc.Cell
+				if cs, derr = boc.DeserializeBoc(raw); derr == nil && len(cs) == 1 {
+					dest = cs[0]
+				}
+			}
+		case "parsed-from-reference-writer":
+			var cs []*boc.Cell
+			if cs, _, derr = bridge.ToTongoParsed([]*cell.Cell{prefix}, rboc.Options{Index: rng.Bool(), CRC: rng.Bool()}); derr == nil && len(cs) == 1 {
+				dest = cs[0]
+			}
+		default:
+			t := tongoCell(prefix)
+			var js []byte
+			if js, derr = t.MarshalJSON(); derr == nil {
+				dest = new(boc.Cell)
+				derr = dest.UnmarshalJSON(js)
+			}
+		}
+		if dest == nil || derr != nil {
+			R.HarnessError("destination cell (%s, %d prefix bits): %v", origin, plen, derr)
+			return
+		}
+		class := origin
+		switch {
+		case plen == 0:
+			class += "/empty"
+		case plen%8 == 0:
+			class += "/aligned-prefix"
+		default:
+			class += "/unaligned-prefix"
+		}
+		wit := map[string]any{"case": k, "value_kind": kind, "destination": class, "prefix_bits": plen, "prefix_refs": len(prefix.Refs), "value": mon.Trunc(fmt.Sprintf("%+v", v), 600)}
+		var err error
+		if p := mon.Guard(func() { err = tlb.Marshal(dest, v) }); p != nil || err != nil {
+			wit["err"] = fmt.Sprint(err, p)
+			R.Violation("error@Marshal-into/"+class+"/"+kind, wit)
+			continue
+		}
+		R.Eval(fmt.Sprintf("dest/%s/%s/%d", class, kind, k))
+		R.Seen("destination_classes", class)
+		R.Seen("destination_value_kinds", kind)
+		want := cell.New(cat(prefix.Bits, bits), false, append(append([]*cell.Cell{}, prefix.Refs...), refs...)...)
+		expect("Marshal-into/"+class+"/"+kind, dest, want, wit)
+	}
+}
+
 // ---------------------------------------------------------------- (3) real data
 
 // unique reports whether re-encoding the decoded value is determined by the
@@ -1535,7 +1730,7 @@ func main() {
 		tier = os.Args[1]
 	}
 	R = mon.Start("C04", tier)
-	R.Rule = "(1) every UintN/IntN/VarUIntegerN/BitsN type of the registry at its boundary values, Go integer kinds, Unary, Magic tags (# and $), the first bits of every tagged struct and of every constructor of every reflectively encoded union, Maybe/Either/EitherRef/Ref and the ^/maybe/maybe^ field tags, compared bit by bit with an independent bit-list encoder; (2) MsgAddress (4 kinds, anycast), Grams, CurrencyCollection, CommonMsgInfo (3 kinds), StateInit, Message (init none/inline/ref x body inline/ref) and ton.CreateExternalMessage over random values against reference encoders transcribed from block.tlb (bits and refs, recursively); SimpleLib, Account (none/uninit/active/frozen) and ShardAccount; where the schema has ^Cell (state-init code/data, SimpleLib root, vm_stk_cell/builder) a third of the cells are exotic (library, Merkle proof/update, pruned branch) and a quarter of the referenced message bodies are library cells: the reference must point to that very cell (type compared, and the representation hash against the reference model when no pruned branch is involved); VM stacks also built with Put (bottom value first), stack slices covering a part of their cell (decoded from a reference encoding, re-encoded, and VmCellSlice.Cell() against the sub-slice), Int257FromInt64 / VarUInteger16FromInt64 at int64 boundaries; the wallet-v5 value types W5Actions (0..10 actions, 255 at the thorough tier, distinct modes and messages), W5ExtendedActions, MessageV5 (3 constructors x actions present/absent x extended actions) and MessageV5Beta against a transcription of the wallet-v5 schema; (3) every transaction and message of the real blocks (tlb/testdata and ton/testdata/raw-13516764.bin) re-encoded and compared by hash with its source cell wherever the encoding is unique (no non-empty dictionary, no unimplemented encoder), and once more after every cell of the decoded record has been read in place (32 bits, one reference); non-trivial = an encoding that was compared; distinct = distinct (structure, shape, value/case)"
+	R.Rule = "(1) every UintN/IntN/VarUIntegerN/BitsN type of the registry at its boundary values, Go integer kinds, Unary, Magic tags (# and $), the first bits of every tagged struct and of every constructor of every reflectively encoded union, Maybe/Either/EitherRef/Ref and the ^/maybe/maybe^ field tags, compared bit by bit with an independent bit-list encoder; (2) MsgAddress (4 kinds, anycast), Grams, CurrencyCollection, CommonMsgInfo (3 kinds), StateInit, Message (init none/inline/ref x body inline/ref) and ton.CreateExternalMessage over random values against reference encoders transcribed from block.tlb (bits and refs, recursively); SimpleLib, Account (none/uninit/active/frozen) and ShardAccount; where the schema has ^Cell (state-init code/data, SimpleLib root, vm_stk_cell/builder) a third of the cells are exotic (library, Merkle proof/update, pruned branch) and a quarter of the referenced message bodies are library cells: the reference must point to that very cell (type compared, and the representation hash against the reference model when no pruned branch is involved); VM stacks also built with Put (bottom value first), stack slices covering a part of their cell (decoded from a reference encoding, re-encoded, and VmCellSlice.Cell() against the sub-slice), Int257FromInt64 / VarUInteger16FromInt64 at int64 boundaries; the wallet-v5 value types W5Actions (0..10 actions, 255 at the thorough tier, distinct modes and messages), W5ExtendedActions, MessageV5 (3 constructors x actions present/absent x extended actions) and MessageV5Beta against a transcription of the wallet-v5 schema; destination classes of tlb.Marshal(c, v): c fresh / parsed from a BOC written by tongo, by the reference writer, or through the JSON form, each empty / with a byte-aligned / with an unaligned prefix of bits (and a reference), for 12 kinds of values with hash, BitsN, byte-array, address, number and ^Cell fields: what follows the prefix equals the reference encoding; (3) every transaction and message of the real blocks (tlb/testdata and ton/testdata/raw-13516764.bin) re-encoded and compared by hash with its source cell wherever the encoding is unique (no non-empty dictionary, no unimplemented encoder), and once more after every cell of the decoded record has been read in place (32 bits, one reference); non-trivial = an encoding that was compared; distinct = distinct (structure, shape, value/case)"
 	R.Assume("reference encoders in props/c04 are literal transcriptions of the block.tlb constructors quoted above them; dictionaries are kept empty in (2) because label forms are a free choice")
 	R.Assume("source-cell hashes of real records are the ones tongo reports (Transaction.Hash, Message.Hash(false)); that they equal the reference hash of a cell of the block is C16's business")
 	R.Assume("exotic cells are handed to tongo as in-memory cells (boc.NewCellExotic) with ordinary children; a pruned branch below a built cell is compared structurally only, because cells built in memory carry no level mask (hash and level of such trees are C02's business)")
@@ -1546,6 +1741,7 @@ func main() {
 	sectionStructures()
 	sectionVmStack()
 	sectionWalletV5()
+	sectionDestinations()
 	sectionReal()
 	R.Sample(map[string]any{"kind": "Message", "example": "int_msg_info$0 + addr_std with anycast + init as ^StateInit + inline body: bits and refs equal the reference transcription"})
 	os.Exit(R.Finish())
